@@ -9,6 +9,7 @@ import (
 	"net"
 	"strconv"
 	"strings"
+	"sync/atomic"
 	"syscall"
 	"time"
 )
@@ -129,14 +130,31 @@ func (c *Conn) reader() (*bufio.Reader, bool, error) {
 	return c.dec, true, nil
 }
 
+// HeaderStyle chooses how the header names of BuildRequest are spelled (HTTP header names are case-insensitive):
+// 0 as usual, 1 lower case, 2 upper case, -1 (default) by the request itself, so that every run mixes the three.
+var HeaderStyle = -1
+
 func BuildRequest(method, path, ctype string, body []byte) []byte {
+	style := HeaderStyle
+	if style < 0 {
+		style = (len(path) + len(body)) % 3
+	}
+	name := func(n string) string {
+		switch style {
+		case 1:
+			return strings.ToLower(n)
+		case 2:
+			return strings.ToUpper(n)
+		}
+		return n
+	}
 	var b bytes.Buffer
-	fmt.Fprintf(&b, "%s %s HTTP/1.1\r\nHost: hc.local\r\n", method, path)
+	fmt.Fprintf(&b, "%s %s HTTP/1.1\r\n%s: hc.local\r\n", method, path, name("Host"))
 	if ctype != "" {
-		fmt.Fprintf(&b, "Content-Type: %s\r\n", ctype)
+		fmt.Fprintf(&b, "%s: %s\r\n", name("Content-Type"), ctype)
 	}
 	if body != nil || method == "POST" || method == "PUT" {
-		fmt.Fprintf(&b, "Content-Length: %d\r\n", len(body))
+		fmt.Fprintf(&b, "%s: %d\r\n", name("Content-Length"), len(body))
 	}
 	b.WriteString("\r\n")
 	b.Write(body)
@@ -154,8 +172,25 @@ func (c *Conn) WriteRaw(b []byte) error {
 }
 
 // ReadMsg reads one message (response or event).
-func (c *Conn) ReadMsg() (*Msg, error) {
-	c.C.SetReadDeadline(time.Now().Add(c.Timeout))
+// Timeouts counts the reads that ran into their timeout. A server that does not answer any more makes every following
+// read wait in vain: after ten of them the remaining reads of the process wait for 300 ms only (the verdict is there).
+var Timeouts int64
+
+func (c *Conn) ReadMsg() (m *Msg, err error) {
+	to := c.Timeout
+	if atomic.LoadInt64(&Timeouts) > 10 && to > 300*time.Millisecond {
+		to = 300 * time.Millisecond
+	}
+	defer func() {
+		if ne, ok := err.(net.Error); ok && ne.Timeout() {
+			atomic.AddInt64(&Timeouts, 1)
+		}
+	}()
+	return c.readMsg(to)
+}
+
+func (c *Conn) readMsg(timeout time.Duration) (*Msg, error) {
+	c.C.SetReadDeadline(time.Now().Add(timeout))
 	br, enc, err := c.reader()
 	if err != nil {
 		return nil, err
